@@ -677,6 +677,7 @@ def report(prop, tier, seed, results, extras, wall, rebaseline, replay):
     except Exception:
         pf = {}
     only_fns = set(pf.get('functions', [])) or None          # restrict shared units to the functions that carry this property
+    label_prefixes = list(pf.get('label_prefixes', []))
     only_bounded = tuple(pf.get('bounded_prefixes', [])) or None
     for u in results:
         u.verified_total = u.verified
@@ -686,7 +687,7 @@ def report(prop, tier, seed, results, extras, wall, rebaseline, replay):
             u.functions = [fr for fr in u.functions if fr['fn'] in only_fns]
             u.verified = sum(1 for fr in u.functions if fr.get('success'))
             u.errors = sum(1 for fr in u.functions if fr.get('success') is False)
-            u.labels = [l for l in u.labels if any(l.startswith(x.split('::')[-1]) for x in only_fns)]
+            u.labels = [l for l in u.labels if any(l.startswith(x.split('::')[-1]) for x in only_fns) or any(l.startswith(x) for x in label_prefixes)]
             if u.status == 'fail' and not u.failures:
                 u.status = 'ok'
         if only_bounded is not None:
@@ -722,7 +723,9 @@ def report(prop, tier, seed, results, extras, wall, rebaseline, replay):
                 # modularly: nothing is known about the new callee, so the failed obligation says `needs a contract`, not
                 # `property broken`.  Only a concrete failing input from the replay of the real text makes it a violation.
                 rec = next((r for r in u.gen.fns if r.qual == f.fn), None) if hasattr(u, 'gen') else None
-                new_callees = [q for q in getattr(u, 'auto_stubs', []) if rec is not None and re.search(r'\b%s\s*\(' % re.escape(q.split('::')[-1]), rec.raw or '')]
+                forb = unit_header_opts(os.path.join(VERIF, 'units', u.name)).get('forbid')
+                new_callees = [q for q in getattr(u, 'auto_stubs', []) if rec is not None and re.search(r'\b%s\s*\(' % re.escape(q.split('::')[-1]), rec.raw or '')
+                               and not (forb and re.search(forb, q.split('::')[-1]))]      # a forbidden callee is stubbed WITH a contract (requires false)
                 if new_callees:
                     wit = find_witness(prop, u, f, nm)
                     if wit:
